@@ -65,7 +65,7 @@ def describe(e):
 
 def main(chk):
     core.setup_repo_path()
-    depth = 3 if chk.tier == "quick" else 5
+    depth = 4 if chk.tier == "quick" else 5
     cfg = {"constants": {"Depth": str(depth), "Types": tla_set(TYPES_ALL)},
            "invariants": ["OnlyDeclarationError", "FixedValueConforms", "FixedValueValidates",
                           "RedeclareRejected"],
